@@ -14,7 +14,18 @@ macro_rules! sim_asm {
     };
 }
 
-fn raise(s: SimSegv) -> ! {
+/// A simulated SIGSEGV.  Normally a typed panic; when the thread is already unwinding (the fault
+/// happens inside a destructor) a second panic would abort the simulator, so the fault is left
+/// pending in the world for the executor to report.
+fn raise(s: SimSegv) {
+    if std::thread::panicking() {
+        world::with_world(|w| {
+            if w.pending_segv.is_none() {
+                w.pending_segv = Some(s);
+            }
+        });
+        return;
+    }
     std::panic::panic_any(s)
 }
 
@@ -36,7 +47,10 @@ pub mod ptr {
     unsafe fn sim_read(addr: u64, n: usize) -> Vec<u8> {
         match with_world(|w| w.mem_read(addr, n)) {
             Ok(v) => v,
-            Err(s) => crate::raise(s),
+            Err(s) => {
+                crate::raise(s);
+                vec![0u8; n]
+            }
         }
     }
     unsafe fn sim_write(addr: u64, bytes: &[u8]) {
